@@ -505,6 +505,11 @@ func (x *Exec) evSelector(st *State, e *ast.SelectorExpr) Val {
 		cur = v
 		t = f.Type()
 	}
+	if inf := x.vc.info(cur.Sort); inf != nil && (inf.Kind == kMap || inf.Kind == kSlice) && !strings.Contains(cur.T, "!q") {
+		if w := x.vc.wf(cur); w != "true" && w != "" {
+			x.vc.termFact(w)
+		}
+	}
 	// a field of unsigned integer type holds a non-negative value
 	if isInteger(t) && isUnsigned(t) && !x.vc.bv {
 		x.assume(st, x.vc.cmp(">=", cur.T, x.vc.intLit(0), true))
